@@ -706,6 +706,7 @@ func RandomEpChooser(r *rand.Rand, calls []EpCall, maxSteps int, faultRate int) 
 	nreq := 0
 	ndeliv := 0
 	lateLink := r.Intn(3) == 0
+	keepGated := r.Intn(2) == 0 // handlers that are inside application code stay there until after the teardown
 	return func(step int, v *EpView) (EpChoice, bool) {
 		runnable := v.Runnable()
 		if lateLink && step < maxSteps*2/3 {
@@ -720,6 +721,16 @@ func RandomEpChooser(r *rand.Rand, calls []EpCall, maxSteps int, faultRate int) 
 		}
 		if step >= maxSteps {
 			// drain: only run what is runnable until quiescence
+			if keepGated {
+				var rr []string
+				for _, n := range runnable {
+					if th := v.s.ByName(n); th != nil && th.Label == "handler.gate" {
+						continue
+					}
+					rr = append(rr, n)
+				}
+				runnable = rr
+			}
 			if len(runnable) == 0 || step >= maxSteps+300 {
 				return EpChoice{}, false
 			}
